@@ -33,6 +33,11 @@ def shards(tier, seed):
                 sh += mk('d<=2 all orderings: ordered tuples of <=3 blades; all canonical subsets', c, ('S', None), ('S', None), 2 if d == 2 else 1, kind='bin')
             sh += mk('normsq: all ordered tuples d<=2', c, ('T', None), ('B',), 1, kind='un')
     d3 = [spaces.cfg_pqr(3, 0, 0), spaces.cfg_pqr(2, 0, 1), spaces.cfg_pqr(1, 1, 1), spaces.cfg_sig([-1, 0, 1])]
+    # the symbolic filter switched off (simp_func=None is a supported option): identically vanishing blades stay in the generated function
+    for c in [spaces.cfg_pqr(3, 0, 0), spaces.cfg_pqr(2, 0, 1), spaces.cfg_pqr(2, 0, 0)]:
+        sh += mk('simp_func=None: subsets of <=2 blades and grade blocks', c, ('S', 2), ('S', 2), 4, kind='bin', alg_options={'simp_func': None})
+        sh += mk('simp_func=None: subsets of <=2 blades and grade blocks', c, ('G',), ('G',), 2, kind='bin', alg_options={'simp_func': None})
+        sh += mk('simp_func=None: subsets of <=2 blades and grade blocks', c, ('G',), ('B',), 1, kind='un', alg_options={'simp_func': None})
     if tier == 'quick':
         for c in [spaces.cfg_pqr(4, 0, 0), spaces.cfg_pqr(3, 0, 1)]:
             # pure-parity operands that are not versors (general bivector, even element, vector+trivector) against single-grade operands
@@ -92,7 +97,7 @@ def run_shard(shard):
         return run_sequence(run_shard, shard)
     res = Result()
     cfg = shard['cfg']
-    alg = make_algebra(cfg)
+    alg = make_algebra(cfg, **shard.get('alg_options', {}))
     shard = _expand_special(dict(shard), alg)
     name = cfg_name(cfg)
     head = f"from kingdon import Algebra\nalg = {cfg_repro(cfg)}\n"
@@ -126,13 +131,13 @@ def run_shard(shard):
     if shard['kind'] == 'un':
         for ka, _ in binprog.pairs({**shard, 'diag': True}, alg):
             a = gmv(alg, ka, 'a')
-            case = {'shard': dict(stratum=shard['stratum'], cfg=cfg, kind='un', left=['list', [list(ka)]], right=['B'], chunk=(0, 1))}
+            case = {'shard': dict(stratum=shard['stratum'], cfg=cfg, kind='un', left=['list', [list(ka)]], right=['B'], chunk=(0, 1), alg_options=shard.get('alg_options', {}))}
             compare('normsq', f'{tuple(ka)}', case, lambda: a.normsq(), lambda: a * ~a,
                     head + f"a = alg.multivector(keys={tuple(ka)}, name='a')\nprint(a.normsq(), a*~a)")
     else:
         for ka, kb in binprog.pairs(shard, alg):
             a, b = gmv(alg, ka, 'a'), gmv(alg, kb, 'b')
-            case = {'shard': dict(stratum=shard['stratum'], cfg=cfg, kind='bin', left=['list', [list(ka)]], right=['list', [list(kb)]], chunk=(0, 1))}
+            case = {'shard': dict(stratum=shard['stratum'], cfg=cfg, kind='bin', left=['list', [list(ka)]], right=['list', [list(kb)]], chunk=(0, 1), alg_options=shard.get('alg_options', {}))}
             mvs = f"a = alg.multivector(keys={tuple(ka)}, name='a'); b = alg.multivector(keys={tuple(kb)}, name='b')\n"
             compare('sw', f'{tuple(ka)} >> {tuple(kb)}', case, lambda: a >> b, lambda: a * b * ~a, head + mvs + 'print(a >> b, a*b*~a)')
             compare('proj', f'{tuple(ka)} @ {tuple(kb)}', case, lambda: a @ b, lambda: (a | b) * ~b, head + mvs + 'print(a @ b, (a|b)*~b)')
